@@ -131,6 +131,8 @@ def build_catalogue() -> list[Entry]:
     add("as_observable", lambda K: ops.as_observable(), "elementwise", VA, CS)
     add("slice:1:3", lambda K: ops.slice(1, 3), "elementwise", VA, CS, "early")
     add("slice:-2:", lambda K: ops.slice(-2, None), "elementwise", VA, CS)
+    add("slice:-3:2", lambda K: ops.slice(-3, 2), "elementwise", VA, CS)
+    add("slice::-1:2", lambda K: ops.slice(None, -1, 2), "elementwise", VA, CS)
     add("first", lambda K: ops.first(), "aggregate", VA, CS, "early")
     add("first:eqB", lambda K: ops.first(K.p("predicate.p", lambda x: K.u(x) == 2)), "aggregate", VA, CS, "early")
     add("first_or_default:C", lambda K: ops.first_or_default(None, K.C), "aggregate", VA, CS, "early")
